@@ -52,8 +52,20 @@ class Run:
         self.extra: dict = {}
         self.t0 = time.time()
         self.analysed_funcs: set[str] = set()
+        self.deferred: list[str] = []     # clauses that could not be evaluated
 
     # {{{ recording
+
+    def do(self, clause, *args, **kwargs):
+        """Evaluate one clause.  A clause that does not understand the code it
+        is pointed at (AnalysisError) must not hide what the other clauses
+        find: the error is kept and decides the outcome only if no clause
+        reports a violation."""
+        try:
+            return clause(*args, **kwargs)
+        except AnalysisError as e:
+            self.deferred.append(str(e))
+            return None
 
     def rule(self, rule_id, doc, minimum=1):
         """Declare a rule with the number of sites confirmed by hand."""
@@ -92,6 +104,15 @@ class Run:
     # {{{ finishing
 
     def check_minimums(self):
+        if self.deferred:
+            known = load_known()
+            if any(known_match(self.prop, o, known) is None for o in self.violations()):
+                # the violations stand on their own; obligation counts are moot
+                self.note("clauses not evaluated (code shape not recognised): "
+                          + "; ".join(self.deferred[:3]))
+                return
+            raise AnalysisError(self.deferred[0] + (
+                f" (and {len(self.deferred) - 1} more)" if len(self.deferred) > 1 else ""))
         counts = {}
         for o in self.obs:
             counts[o.rule] = counts.get(o.rule, 0) + 1
